@@ -482,6 +482,16 @@ def step (st : St) (line : String) : St × String :=
         | some (some u') => ({ st with usks := setSlot st.usks j (some u') }, "ok forged")
         | some none => ({ st with usks := setSlot st.usks j (some u) }, "ok unchanged")
     | _, _ => (st, "bad-op")
+  | ["bump_ids", ms, n] =>
+    match handle 'M' ms, n.toNat? with
+    | some i, some k =>
+      match getSlot st.msks i with
+      | none => (st, "err NoSuchHandle")
+      | some m =>
+        let nx := max m.structure_.nextId k
+        let m' := { m with structure_ := { m.structure_ with nextId := nx } }
+        ({ st with msks := setSlot st.msks i (some m') }, "ok next=" ++ toString nx)
+    | _, _ => (st, "bad-op")
   | ["roundtrip", _] => (st, "ok")
   | ["usk_rights", ms, p] =>
     match handle 'M' ms with
